@@ -287,6 +287,9 @@ func (p *Profile) Concretise(m M) (msg sdk.Msg, err error) {
 	if msg, ok, err := p.concretiseData(m); ok {
 		return msg, err
 	}
+	if msg, ok, err := p.concretiseIntertx(m); ok {
+		return msg, err
+	}
 	switch str(m, "type") {
 	case "CreateClass":
 		return &basetypes.MsgCreateClass{Admin: AddrStr(str(m, "admin")), Issuers: addrs(strList(m, "issuers")),
